@@ -41,16 +41,19 @@ LEVEL = 'model_checking'
 
 SAMPLE_ACTIONS = ['ATake', 'ASubset', 'AAdd', 'AMul', 'AZip']
 GAUSS_ACTIONS = ['WithChildren', 'Trim']
+TABLE_INVARIANTS = dict(
+    ContainerInv='the number of points per element of a live PointsSequence (chain / repeat / take / product of point sets) differs from the container model',
+    LocatedInv='the structure of a live located sample (Topology._sample) differs from the grouping the model predicts')
 ACTION_OP = dict(ATake='take', ASubset='subset', AAdd='add', AMul='mul', AZip='zip', WithChildren='children', Trim='trim')
 SAMPLE_MUTANTS = {'mul-index-strides': 'EvalOrder', 'add-no-offset': 'IndexPartition', 'take-no-compose': 'OpLaw',
                   'zip-no-weights': 'Quadrature', 'take-unsorted': 'OpLaw'}
 GAUSS_MUTANTS = {'child-map': 'ChildrenTile', 'simplex-moment': 'RefVolume'}
 
 # leaves per run: name -> (start atoms, operands)
-ALL = ['A', 'C', 'B', 'G', 'D', 'H', 'U', 'W', 'L', 'M', 'R', 'T', 'V', 'AC', 'BG', 'Ac', 'Bc', 'EX', 'EY']
+ALL = ['A', 'C', 'B', 'G', 'D', 'H', 'U', 'W', 'L', 'M', 'R', 'T', 'V', 'P', 'Q', 'AC', 'BG', 'Ac', 'Bc', 'EX', 'EY']
 LEAVES = {
-    'quick': (['A', 'B', 'T', 'L', 'AC', 'Ac', 'EX'], ['C', 'B', 'D', 'W', 'AC', 'EX']),
-    'thorough2': (ALL, ['A', 'C', 'B', 'G', 'D', 'U', 'W', 'L', 'R', 'T', 'AC', 'BG', 'Ac', 'EX']),
+    'quick': (['A', 'B', 'T', 'L', 'P', 'Q', 'AC', 'Ac', 'EX'], ['C', 'B', 'D', 'W', 'AC', 'EX']),
+    'thorough2': (ALL, ['A', 'C', 'B', 'G', 'D', 'U', 'W', 'L', 'R', 'T', 'P', 'Q', 'AC', 'BG', 'Ac', 'EX']),
     'thorough3': (['A', 'B', 'L', 'T', 'AC'], ['C', 'B', 'D', 'A', 'AC']),
     'sim': (ALL, ALL),
     'total': (['A'], ['C', 'B']),
@@ -135,10 +138,10 @@ def run(rep):
     with open(tables['nogauss'], 'w') as f:
         json.dump([], f)
     rep.lap('tables')
-    rep.constants['SampleAlg'] = ('leaves: synthetic base samples with integer coordinates and weights in three spaces (1D, 1D, 2D), sums of two of them, '
+    rep.constants['SampleAlg'] = ('leaves: synthetic base samples with integer coordinates and weights in three spaces (1D, 1D, 2D), sums of two of them, PointsSequence containers (chain, repeat, take, product), '
                                   'custom index, located samples with weights, gauss samples of a structured and of two trimmed topologies, empty samples; '
-                                  '{}').format('<= 2 operations exhaustively on 7 leaves' if quick else
-                                               '<= 2 operations exhaustively on 19 leaves, <= 3 operations on 5 leaves, simulation to 4 operations')
+                                  '{}').format('<= 2 operations exhaustively on 9 leaves' if quick else
+                                               '<= 2 operations exhaustively on 21 leaves, <= 3 operations on 5 leaves, simulation to 4 operations')
     rep.constants['GaussOracle'] = ('references line, triangle, tetrahedron, square, prisms, cube; subsets of children; half-space trims {}; '
                                     'monomials up to degree {} (documented maxima: triangle 7, tetrahedron 8), children/trims up to degree {}').format(
         *(('at 1/2 of line, triangle, square (maxrefine 0, 1)', 9, '4 (3 in 3D)') if quick else ('at 1/4, 1/2, 3/4 in all dimensions (maxrefine 0, 1)', 14, '7 (5 in 3D)')))
@@ -150,7 +153,12 @@ def run(rep):
     rep.lap('tlc design runs')
 
     # ---- design-level verdicts
+    table_violations = []
     for name, res in results.items():
+        if res.violated in TABLE_INVARIANTS:
+            # T binding: the structure exported from the live samples is not the one the model predicts
+            table_violations.append((name, res.violated))
+            continue
         if 'mutant' in name:
             m = name.split('mutant-')[1]
             want = SAMPLE_MUTANTS.get(m) or GAUSS_MUTANTS[m]
@@ -161,8 +169,13 @@ def run(rep):
         if name == 'sample-total':
             continue
         rep.add_tlc(res, exhaustive=jobs[name][2])
-        if res.violated:
-            raise RuntimeError('design spec {} violates {}:\n{}'.format(name, res.violated, '\n'.join(res.error_trace[:60])))
+        if res.violated or res.postcondition_failed:
+            raise RuntimeError('design spec {} violates {}:\n{}'.format(name, res.violated or 'an assumption', '\n'.join(res.error_trace[:60]) or res.stdout[-2000:]))
+    if table_violations:
+        tab = cs.table(world, *LEAVES['sim'])
+        for name, inv in table_violations:
+            rep.violation('table:' + inv, TABLE_INVARIANTS[inv], dict(run=name, bases=[dict(sp=b['sp'], np=b['np'], items=b['items'], ps=b['ps']) for b in tab['bases']]))
+        return
     # vacuity guard: every action of both machines was taken.  The thorough tier reads TLC's own coverage statistics; the
     # quick tier counts the states each action produced (every emitted state names the operation that created it)
     for name, actions in (('sample', SAMPLE_ACTIONS), ('gauss', GAUSS_ACTIONS)):
@@ -190,8 +203,9 @@ def run(rep):
         rep.add_tlc(total, exhaustive=True)
 
     # ---- S->C: sample nestings
-    atomtable = next(e['atomtable'] for e in results['sample'].emitted if 'atomtable' in e)
-    cs.set_slices(world, atomtable)
+    tabs = next(e for e in results['sample'].emitted if 'atomtable' in e)
+    cs.set_tables(world, tabs['atomtable'], tabs['basetable'])
+    rep.extra['base_samples'] = [dict(space=b['sp'], kind=b['how'], points_per_element=[len(c) for c in b['coords']]) for b in world.bases]
     states, seen = [], set()
     opcount = collections.Counter()
     for name, res in results.items():
